@@ -275,7 +275,7 @@ class C18(Check):
         creations = {0: [], 1: []}
         for t in range(n):
             for m, r in zip(metas[t], R[t]):
-                if m["op"] in ("prologue_key", "create", "create_priv", "genkey"):
+                if m["op"] in ("prologue_key", "create", "create_priv", "genkey", "set"):          # every call that writes an object other threads can meet
                     creations[prog["tokens"][t]].append((r["t0"], r["t1"], t))
         KF5 = {"op": "search", "rv": "CKR_GENERAL_ERROR", "overlaps": "object_creation_by_other_thread"}
 
@@ -462,11 +462,17 @@ class C18(Check):
                     if not ok:
                         raise bad("%s: session state %d although the login state during the call can only have been %s" % (where, r["state"], sorted(S)))
                 elif op == "genkey":
+                    if rv == K.CKR_FUNCTION_FAILED and raced(tok, t, r) and logout_overlaps(tok, r) and \
+                            ctx.known({"op": "own_public_object_use", "rv": "CKR_OBJECT_HANDLE_INVALID", "creation_overlaps": "search_by_other_thread", "after": "C_Logout"}):
+                        gk = {"raced_search": False, "c0": 0, "failed": True}     # the key's handle vanished inside C_GenerateKey itself
+                        continue
                     if rv != 0:
                         raise bad("%s: C_GenerateKey failed: %s" % (where, K.rvname(rv)))
                     handles.append((r["h"], where))
                     gk = {"raced_search": raced(tok, t, r), "c0": r["t0"]}
                 elif op == "genkey_read":
+                    if gk.get("failed"):
+                        continue
                     v = r["attrs"][str(K.CKA_VALUE)]
                     if v[0] == K.CKR_OBJECT_HANDLE_INVALID and gk["raced_search"] and \
                             any(W["state"] == "out" and W.get("who") and W["t0"] <= r["t1"] and W["t1"] >= gk["c0"] for W in writes[tok]) and \
